@@ -21,6 +21,7 @@ from pexpect.popen_spawn import PopenSpawn
 
 from ..core.runner import split_range
 from ..core.watchdog import watchdog, CaseTimeout
+from ..core.acc import second_attempt
 from ..workloads.gen_expect import rng_for
 from ..workloads.puppetctl import Puppet, PeerError, wait_state, fd_readable, proc_stat
 
@@ -777,28 +778,35 @@ def plan(tier, seed):
     return [{'cases': cases[a:b], 'shard': i} for i, (a, b) in enumerate(split_range(len(cases), 16))]
 
 
+def dispatch(case, acc):
+    k = case['kind']
+    if k == 'pty':
+        acc.count('placements')
+        pty_placement(case, acc)
+    elif k == 'inproc':
+        acc.count('inproc_placements')
+        inproc_placement(case, acc)
+    elif k == 'bulk':
+        acc.count('bulk_runs')
+        bulk_case(case, acc)
+    elif k == 'popen-placement':
+        popen_placement(case, acc)
+    else:
+        popen_case(case, acc)
+
+
 def one(case, acc):
     acc.case()
     try:
         with watchdog(90):
-            k = case['kind']
-            if k == 'pty':
-                acc.count('placements')
-                pty_placement(case, acc)
-            elif k == 'inproc':
-                acc.count('inproc_placements')
-                inproc_placement(case, acc)
-            elif k == 'bulk':
-                acc.count('bulk_runs')
-                bulk_case(case, acc)
-            elif k == 'popen-placement':
-                popen_placement(case, acc)
-            else:
-                popen_case(case, acc)
+            dispatch(case, acc)
     except PeerError as e:
         acc.inconc('peer: %s (%r)' % (e, case))
     except CaseTimeout as e:
-        acc.inconc('watchdog: %s (%r)' % (e, case))
+        try:
+            second_attempt(acc, case, lambda: dispatch(case, acc), 90, '%s case did not finish within 90 s' % case['kind'])
+        except PeerError as e2:
+            acc.inconc('peer: %s (%r)' % (e2, case))
     if acc.evaluations <= 3:
         acc.sample(case)
 
